@@ -101,6 +101,13 @@ def cases(draw, name):
             "mu": S.sig(10 ** draw(st.floats(math.log10(0.3), math.log10(3.0))), 5),
             "q": draw(S.q1d(3, 5, lo=-3.0, hi=-0.3)),
             "mode": draw(st.integers(1, nmodes)) if nmodes else 0}
+    if info.parameters.orientation_parameters and draw(st.integers(0, 3)) == 0:
+        # oriented models also on a detector: q components scale like q, the view angles are pure numbers.
+        # The default view and points on the detector axes are drawn on purpose (limits taken at q_c = 0 etc.)
+        case["qx"], case["qy"] = draw(S.q2d(2, 4, lo=-2.5, hi=-0.5))
+        case["view"] = {p.id: S.sig(draw(st.one_of(st.just(float(p.default)), st.sampled_from([0.0, 90.0, 30.0]),
+                                                   st.floats(-180, 180))), 6)
+                        for p in info.parameters.orientation_parameters}
     if pars is None:
         pars = c14.random_pars(info, c14.mixed_seed(rseed, sorted(pd.items()), case["lam"], case["q"], case["mode"]))
     pars.pop("scale", None)
@@ -161,8 +168,16 @@ def check_scaling(case, rec):
     rec.cls("model:" + name, "source:" + case["source"])
     rec.nontrivial(not (0.95 <= lam <= 1.05) and len(set(lengths)) >= 2, case)
     q = np.array(case["q"], float)
-    k1 = model.make_kernel([q])
-    k2 = model.make_kernel([q / lam])
+    two_d = "qx" in case
+    if two_d:
+        rec.cls("detector-2d")
+        qx, qy = np.array(case["qx"], float), np.array(case["qy"], float)
+        k1 = model.make_kernel([qx, qy])
+        k2 = model.make_kernel([qx / lam, qy / lam])
+        full.update(case["view"])
+    else:
+        k1 = model.make_kernel([q])
+        k2 = model.make_kernel([q / lam])
     has_sld = any(p.type == "sld" for _n, p in S.expanded_parameters(info))
 
     def rescale(base):
@@ -195,7 +210,7 @@ def check_scaling(case, rec):
                 rec.cls("compared:mu2")
             if dev > TOL:
                 out.append(("mu2:" + name, "mu=%g: I(mu*slds)/(mu^2 I) - 1 = %.3g; I=%r I'=%r" % (mu, dev, a, c)))
-        if info.have_Fq or info.parameters.form_volume_parameters:
+        if (info.have_Fq or info.parameters.form_volume_parameters) and not two_d:
             try:
                 fa = dict(base, radius_effective_mode=case["mode"])
                 fb = dict(scaled, radius_effective_mode=case["mode"])
@@ -214,33 +229,53 @@ def check_scaling(case, rec):
                 if np.isfinite(fa_) and fa_ > 0 and abs(fb_ / (fa_ * lam ** 3) - 1) > TOL:
                     out.append(("form-volume:" + name + _as_power([fa_], [fb_], lam),
                                 "V_form %r -> %r, expected x%g" % (fa_, fb_, lam ** 3)))
-            if case["mode"] and np.isfinite(ra) and ra > 0:
-                if classify:
-                    rec.cls("compared:reff")
-                if not abs(rb / (ra * lam) - 1) <= TOL:
-                    out.append(("reff:%s:mode%d" % (name, case["mode"]), "R_eff %r -> %r, expected x%g" % (ra, rb, lam)))
+            nmodes_ = len(info.radius_effective_modes or [])
+            for m_ in range(1, nmodes_ + 1):
+                # every effective-radius mode (one more pair of single evaluations each), not only the drawn one
+                if m_ == case["mode"]:
+                    ra_m, rb_m = ra, rb
+                else:
+                    ra_m = direct_model.call_Fq(k1, dict(base, radius_effective_mode=m_), cutoff=0.0)[2]
+                    rb_m = direct_model.call_Fq(k2, dict(scaled, radius_effective_mode=m_), cutoff=0.0)[2]
+                if np.isfinite(ra_m) and ra_m > 0:
+                    if classify:
+                        rec.cls("compared:reff")
+                    if not abs(rb_m / (ra_m * lam) - 1) <= TOL:
+                        out.append(("reff:%s:mode%d" % (name, m_), "R_eff %r -> %r, expected x%g" % (ra_m, rb_m, lam)))
         return out
 
-    failed = relations(full, True)
-    if failed:
+    def examine(point, classify, suffix=""):
+        failed = relations(point, classify)
+        if not failed:
+            return
         # A piecewise model evaluated exactly on one of its branch thresholds (flexible_cylinder's defaults have
         # length/kuhn_length = 10, where a coefficient jumps; a barbell mesh in which a bell radius equals a
         # cylinder radius sits on the model's validity boundary) takes either branch depending on the rounding
         # of lambda*x against lambda*y.  That is a discontinuity of the model, not a unit error: a unit error
         # persists on an open neighbourhood, so the relations are re-examined a relative 1e-6 away from the
         # point (a distinct factor per parameter) and only those that fail there too are reported.
-        moved = dict(full)
+        moved = dict(point)
         for i, (pname, p) in enumerate(S.expanded_parameters(info)):
             if p.type in ("magnetic", "orientation", "sld") or S._is_integer_like(p):
                 continue
-            moved[pname] = full[pname] * (1 + 1e-6 * (0.37 + 0.61 * i))
+            moved[pname] = point[pname] * (1 + 1e-6 * (0.37 + 0.61 * i))
         again = dict(relations(moved, False))
         for bucket, detail in failed:
             kind = bucket.split(":")[0]
             if any(b2.split(":")[0] == kind for b2 in again):
-                rec.fail(bucket, detail + " (also a relative 1e-6 away)")
+                rec.fail(bucket, detail + " (also a relative 1e-6 away)" + suffix)
             else:
                 rec.cls("threshold-coincidence:" + name)
+
+    examine(full, True)
+    if two_d:
+        # the same detector points with the particle in its default view (view angles of exactly 0 or 90 degrees
+        # put q on the particle's axes, where shapes evaluate limits such as sin(x)/x at x = 0)
+        home = dict(full)
+        home.update({p.id: float(p.default) for p in info.parameters.orientation_parameters})
+        if any(home[k_] != full[k_] for k_ in case["view"]):
+            rec.cls("detector-2d:default-view")
+            examine(home, False, " [particle in its default view]")
 
 
 CHECKS = {"scaling": check_scaling}
